@@ -14,12 +14,15 @@
    panic in the middle of a mutation is not modelled ([Panic] is final).
 
    Abstracted:
-     - AddMany sorts its entries with slices.SortFunc (unstable) and removes adjacent
-       duplicates; addManyAtDepth then partitions the sorted slice at the first entry
-       whose bit is 1.  On a slice sorted by bitstr/bit256 Compare whose members share
-       their first [depth] bits this is the partition by the bit at [depth]; the model
-       partitions with [filter].  Which of several entries with the SAME key survives
-       deduplication is unspecified in Go (unstable sort); the model keeps the first.
+     - AddMany sorts its entries with slices.SortFunc by Key.Compare and removes ADJACENT entries
+       with equal keys.  slices.SortFunc on at most 12 elements is the insertion sort transcribed
+       here ([sort_entries]); on longer slices it is pdqsort, which gives the same list whenever
+       Compare is a strict total order on the keys present -- it is, except that bitstr's Compare
+       calls the empty key equal to every all-zero key ([key_compare]): with the empty key AND
+       duplicates among more than 12 entries the survivors are not modelled.
+     - addManyAtDepth partitions the sorted slice at the first entry whose bit is 1.  On a slice
+       sorted by Compare whose members share their first [depth] bits (shorter ones are dropped
+       first) this is the partition by the bit at [depth]; the model partitions with [filter].
      - The recursion of addManyAtDepth is on the depth; the model uses fuel
        1 + (longest entry key), which is enough (an entry is only passed to depth d+1
        when its key is longer than d); running out of fuel is [Blocked]. *)
@@ -138,20 +141,51 @@ Fixpoint max_len {D} (es : list (bits * D)) : nat :=
   | e :: es' => Nat.max (length (fst e)) (max_len es')
   end.
 
-Definition has_entry_key {D} (k : bits) (es : list (bits * D)) : bool :=
-  existsb (fun e => bits_eqb (fst e) k) es.
+(* bitstr.Key.Compare (bit256.Key.Compare is the same function on keys of one length): numeric
+   order, a proper prefix first -- except that an empty key and an all-zero key are "equal" *)
+Definition is_zero_key (k : bits) : bool := forallb negb k.
+Fixpoint lex_compare (a b : bits) : comparison :=
+  match a, b with
+  | [], [] => Eq
+  | [], _ :: _ => Lt
+  | _ :: _, [] => Gt
+  | x :: a', y :: b' => if Bool.eqb x y then lex_compare a' b' else if x then Gt else Lt
+  end.
+Definition key_compare (a b : bits) : comparison :=
+  if negb (Nat.eqb (length a) (length b))
+     && ((Nat.eqb (length a) 0 && is_zero_key b) || (Nat.eqb (length b) 0 && is_zero_key a))
+  then Eq else lex_compare a b.
 
-(* duplicate keys removed, first occurrence kept *)
-Fixpoint dedup_keys {D} (es : list (bits * D)) (seen : list (bits * D)) : list (bits * D) :=
+(* slices.SortFunc as insertion sort: an entry moves left while it compares strictly less than
+   its predecessor.  [rl] is the processed prefix, reversed. *)
+Fixpoint ins_entry {D} (x : bits * D) (rl : list (bits * D)) : list (bits * D) :=
+  match rl with
+  | [] => [x]
+  | y :: rl' => match key_compare (fst x) (fst y) with
+                | Lt => y :: ins_entry x rl'
+                | _ => x :: rl
+                end
+  end.
+Definition sort_entries {D} (es : list (bits * D)) : list (bits * D) :=
+  rev (fold_left (fun rl x => ins_entry x rl) es []).
+
+(* removal of adjacent duplicates: an entry whose key equals (key.Equal) the key of the entry
+   just before it in the sorted slice is dropped *)
+Fixpoint dedup_after {D} (prev : bits) (es : list (bits * D)) : list (bits * D) :=
   match es with
   | [] => []
-  | e :: es' => if has_entry_key (fst e) seen then dedup_keys es' seen
-                else e :: dedup_keys es' (e :: seen)
+  | e :: es' => if bits_eqb (fst e) prev then dedup_after (fst e) es'
+                else e :: dedup_after (fst e) es'
+  end.
+Definition dedup_adjacent {D} (es : list (bits * D)) : list (bits * D) :=
+  match es with
+  | [] => []
+  | e :: es' => e :: dedup_after (fst e) es'
   end.
 
 (* (tr *Trie).AddMany *)
 Definition add_many {D} (t : trie D) (es : list (bits * D)) : res (trie D * nat) :=
-  add_many_at (S (max_len es)) 0 (dedup_keys es []) t.
+  add_many_at (S (max_len es)) 0 (dedup_adjacent (sort_entries es)) t.
 
 (* (tr *Trie).Add *)
 Definition add {D} (t : trie D) (k : bits) (d : D) : res (trie D * bool) :=
